@@ -39,7 +39,8 @@ from ..traces import validate
 MiB = 1024 * 1024
 FINDING_OF = {"UncappedNonEmptyRepeat": "KF-C12-01", "ExtractAllIgnoresFilter": "KF-C12-02",
               "UnboundedVectorCount": "KF-C12-03", "UncappedSpaceCount": "KF-C12-04",
-              "DenseGridFromSparseCells": "KF-C12-05", "NoOutputLimit": "KF-C12-06", "XrefPrevLoop": "KF-C12-07"}
+              "DenseGridFromSparseCells": "KF-C12-05", "XrefPrevLoop": "KF-C12-07"}
+# (KF-C12-06, 7z LZMA2 output limit, was repaired: proposed_fixes/c12-7z-lzma2-output-limit.diff)
 # deviation -> the invariant its sensitivity run must violate
 SENSITIVITY = {"UncappedNonEmptyRepeat": "Inv_Bounded", "ExtractAllIgnoresFilter": "Inv_SkippedNeverDecompressed",
                "NoOutputLimit": "Inv_Bounded", "UnboundedVectorCount": "Inv_Bounded",
@@ -61,7 +62,7 @@ def _gen_cfg(devs, thorough, invs, parts=("a", "b")):
             f" Deviations = {to_tla(set(devs))}\n"
             f" SmallFileLimits = {'{1, 4096}' if thorough else '{4096}'}\n"
             " MemberLimits = {4096, 10485760}\n"
-            f" MaxMembers = 2\n BigLim2 = {'TRUE' if thorough else 'FALSE'}\n"
+            f" MaxMembers = {3 if thorough else 2}\n BigLim2 = {'TRUE' if thorough else 'FALSE'}\n"
             f" Parts = {to_tla(set(parts))}\n" + "".join(f"INVARIANT {i}\n" for i in invs))
 
 
